@@ -5,6 +5,14 @@ PROPS = {
         "ax": True,
         "level": "proof",
     },
+    "C04": {
+        "vx": ["encoding_filters"],
+        "level": "proof",
+    },
+    "C17": {
+        "vx": ["cone"],
+        "level": "proof",
+    },
     "C15": {
         "vx": ["solver_reader"],
         "kl": ["solver_msg"],
